@@ -431,13 +431,29 @@ def _k4(clause, f):
 SIGNATURES = {'compressed_all_ones_value_next_to_missing': _k4}
 
 
+class _CorpusReplay(object):
+    def __init__(self, d):
+        self.item = (d['corpus_file'], d['message_index'], bytes.fromhex(d['bytes_hex']))
+
+    def key(self):
+        return '%s#%d' % self.item[:2]
+
+
 def load_case(d):
     if d.get('kind') == 'value':
         return ValueCase.from_json(d)
+    if 'corpus_file' in d:
+        return _CorpusReplay(d)
     return FixCase.from_json(d)
 
 
 def check_any(case):
+    if isinstance(case, _CorpusReplay):
+        cc, out, excl = check_corpus(case.item)
+        if out is None:
+            raise Reject(excl)
+        out.failures = [('corpus: ' + c, d) for c, d in out.failures]
+        return out
     return check_value_case(case) if isinstance(case, ValueCase) else check_fix(case)
 
 
@@ -491,5 +507,7 @@ def replay(path):
         for clause, detail in fails:
             print('VIOLATION property=%s replay=%s' % (PID, path))
             print('  clause: %s detail: %s' % (clause, json.dumps(runner.jsonable(detail))[:600]))
+        if not fails:
+            print('replay %s: property holds' % path)
         return 1 if fails else 0
     return std.replay_main(PID, path, check_any, load_case)
